@@ -982,3 +982,14 @@ Proof.
   - eapply merge_Rel; eauto.
   - now apply sort_bb_Rel.
 Qed.
+
+(* ===================== the runner ===================== *)
+Lemma run_acc_spec : forall ops s acc, run_acc s ops acc = rev_append acc (run_case step s ops).
+Proof.
+  induction ops as [|[o e] r IH]; intros s acc; cbn [run_acc run_case]; [reflexivity|].
+  destruct (step s o e) as [s' out]. rewrite IH. reflexivity.
+Qed.
+
+(* the extracted entry point is the generic case runner of RunnerLib applied to [step] *)
+Theorem run_is_run_case ops : run ops = run_case step [] ops.
+Proof. unfold run. rewrite run_acc_spec. reflexivity. Qed.
